@@ -150,9 +150,9 @@ class Parameters:
             base = self.timestamp
             if self.delay.delay_until is not None and self.delay.delay_until > base:
                 base = self.delay.delay_until
-        if base > now:
-            return base
-        return base + self.delay.defer_by * ((now - base) // self.delay.defer_by + 1)
+        # at least one period after `base`: a run, which was started a bit before its scheduled time
+        # (brokers round delays), must not get the very same slot again
+        return base + self.delay.defer_by * max((now - base) // self.delay.defer_by + 1, 1)
 
     def _prepare_reschedule(self) -> "Parameters":
         copy = deepcopy(self)
